@@ -39,6 +39,7 @@ PROPS = {
     "C25": dict(mix=[("plain", 0.3, {"policy": {"datastore": True}}), ("faults", 0.2, {"policy": {"datastore": True}}),
                      ("cmds", 0.3, {"policy": {"datastore": True}}), ("hold", 0.2, {"policy": {"datastore": True}})],
                 mc=["MC_base"]),
+    "C33": dict(mix=[("xtrig", 1.0, {})], mc=[]),
     "C19": dict(mix=[("restart", 1.0, {})], mc=["MC_restart"]),
     "C20": dict(mix=[("crash", 1.0, {})], mc=["MC_crash"]),
     "C31": dict(mix=[("plain", 1.0, {"features": {"sequential": "always"}})], mc=["MC_seq", "MC_base"]),
